@@ -120,7 +120,7 @@ Undelivered(h, d) ==
 App(p, h) ==
     LET s == snt1(h)  ok == h.out.ok IN
     CASE h.out.set /\ h.par.entry = "crash" -> p \in {"C09", "C10", "C19"}     \* the process died (panic in a goroutine of the code)
-      [] h.out.set /\ h.par.entry = "lab" -> (p = "C13" /\ h.par.bound_ms = 0) \/ (p = "C08" /\ h.par.bound_ms > 0)
+      [] h.out.set /\ h.par.entry = "lab" -> (p = "C13" /\ h.par.bound_ms = 0) \/ (p = "C08" /\ h.par.bound_ms > 0) \/ (p = "C17" /\ h.par.skip)
       [] h.out.set /\ h.par.entry = "doc" -> p \in {"C16", "C17", "C18"} \/ (p = "C08" /\ h.par.docin.bound_us > 0)
       [] h.out.set /\ h.par.entry = "docstress" -> p = "C16"
       [] h.out.set /\ h.par.entry = "pubfetch" -> p = "C15"
@@ -128,7 +128,7 @@ App(p, h) ==
       [] h.out.set /\ h.par.entry = "pubip" -> p = "C18" \/ p = "C08"
       [] h.out.set /\ h.par.entry = "alloc" -> p = "C11"
       [] EngRun(h) -> p \in {"C03", "C05", "C06", "C08", "C10"} \/ (p = "C07" /\ h.par.variant = "engine_parallel")
-      [] ReqRun(h) -> (p = "C11" /\ h.par.via = "lib") \/ p = "C15" \/ p = "C10" \/ (p = "C06" /\ h.par.via = "lib") \/ (p = "C01" /\ ((h.par.via = "lib" /\ h.par.tcp_method = "prefer_sack") \/ h.par.via = "http")) \/ (p = "C05" /\ h.par.via = "lib" /\ h.par.e2e > 0) \/ (p = "C16" /\ h.par.via = "http" /\ h.par.expect_status = 200) \/ (p = "C19" /\ h.par.expect.kind # "none") \/ (p = "C20" /\ h.par.expect20.out # "none") \/ (p = "C17" /\ Len(h.par.expect17.routers) > 0)
+      [] ReqRun(h) -> (p = "C18" /\ h.par.public_ip /\ h.cancel < 0) \/ (p = "C04" /\ h.par.via = "lib") \/ (p = "C11" /\ h.par.via = "lib") \/ p = "C15" \/ p = "C10" \/ (p = "C06" /\ h.par.via = "lib") \/ (p = "C01" /\ ((h.par.via = "lib" /\ h.par.tcp_method = "prefer_sack") \/ h.par.via = "http")) \/ (p = "C05" /\ h.par.via = "lib" /\ h.par.e2e > 0) \/ (p = "C16" /\ h.par.via = "http" /\ h.par.expect_status = 200) \/ (p = "C19" /\ h.par.expect.kind # "none") \/ (p = "C20" /\ h.par.expect20.out # "none") \/ (p = "C17" /\ Len(h.par.expect17.routers) > 0)
       [] p \in {"C01", "C04", "C05"} -> WireRun(h) /\ ok
       [] p \in {"C02", "C03"}        -> WireRun(h) /\ ok /\ Len(s) >= 1
       [] p \in {"C06", "C08", "C10"} -> WireRun(h)
@@ -158,7 +158,7 @@ Holds(p, h) ==
       [] h.par.entry = "alloc" -> C11_alloc(h)
       [] EngRun(h) -> (CASE p = "C03" -> C03_eng(h) [] p = "C05" -> C05_eng(h) [] p = "C06" -> C06_eng(h)
                           [] p = "C07" -> C07_eng(h) [] p = "C08" -> C08_eng(h) [] p = "C10" -> C10_eng(h) [] OTHER -> TRUE)
-      [] ReqRun(h) -> (CASE p = "C11" -> C11_run(h) [] p = "C15" -> C15_run(h) /\ (h.par.via = "lib" => C15_samples(h)) [] p = "C10" -> C10_req(h) [] p = "C06" -> C06_req(h)
+      [] ReqRun(h) -> (CASE p = "C18" -> C18_req(h) [] p = "C04" -> C04_req(h) [] p = "C11" -> C11_run(h) [] p = "C15" -> C15_run(h) /\ (h.par.via = "lib" => C15_samples(h)) [] p = "C10" -> C10_req(h) [] p = "C06" -> C06_req(h)
                           \* C05, last sentence: the end-to-end samples are the destination hops' RTTs of the e2e wire runs, 0 = no answer
                           [] p = "C05" -> C15_samples(h)
                           \* C01 at request level: every reported run is what its own wire run yields under the matcher of its variant
